@@ -267,6 +267,7 @@ def scan_trusted(unit):
 
 def check_property(prop, tier, seed):
     t0 = time.time()
+    os.environ['VERIF_TIER_EFFECTIVE'] = tier
     cfg = load_props()
     if prop not in cfg:
         print('UNDECIDED reason=property %s is not claimed' % prop)
@@ -305,6 +306,8 @@ def check_property(prop, tier, seed):
         collect_lemma_tags(unit)
         for nm, why in unit.lost:
             undecided.append('extraction of %s/%s failed (left out; the rest of the unit is still checked): %s' % (uname, nm, why))
+            if uname not in undecided_units:
+                undecided_units.append(uname)
         extra = []
         if tier == 'thorough':
             extra = ['--rlimit', '40']
